@@ -13,8 +13,9 @@ GEN_UNITS = ['rodrigues', 'euler', 'rotate', 'transform_glue']
 PIN_TARGETS = ['PdbVerif.Pins.D']
 RULE = ('real pdb2sql databases built from generated ATOM lines (1-30 atoms, chains A-C, coordinates with three decimals up to +-999) '
         'driven through compositions of 1-5 of translation / rot_axis / rot_euler / rot_mat, each with its own selection (everything, '
-        'one chain, several chains = empty complement, single rowID, atom name, residue range, negated chain; a separate stream of '
-        'empty selections), angles in [-4pi, 4pi] (generic stream kept away from multiples of pi, separate stream at multiples of pi/2), '
+        'one chain, several chains = empty complement, single rowID, atom name, residue range, negated chain, rowID lists in ascending, '
+        'shuffled, reversed, concatenated (later rows first) and duplicated order, alone and combined with a chain key; a separate '
+        'stream of empty selections), angles in [-4pi, 4pi] (generic stream kept away from multiples of pi, separate stream at multiples of pi/2), '
         'Euler triples with all three angles non-zero, random unit axes and coordinate axes, proper random matrices; the xyz-level '
         'functions additionally with explicit centres. get(\'*\') after the sequence is compared with the Lean model (the code\'s matrices) '
         'and with the Lean Spec (vector-form isometries through the centroid of the selection). A case is non-trivial when distinct by '
@@ -56,11 +57,17 @@ def table_json(rows):
     return out
 
 
+ORDERED_KINDS = ['rowlist_shuffled', 'rowlist_reversed', 'rowlist_concat', 'rowlist_dup', 'rowlist_and_key']
+SEL_KINDS = ['all', 'chain', 'chains_all', 'single', 'name', 'resrange', 'no_chain', 'rowlist'] + ORDERED_KINDS
+
+
 def selection(rng, rows, kind=None):
     """(kwargs for the real code, mask computed here from the reference rows)"""
     n = len(rows)
     chains = sorted({r[4] for r in rows})
-    kind = kind or rng.choice(['all', 'chain', 'chains_all', 'single', 'name', 'resrange', 'no_chain', 'rowlist'])
+    kind = kind or rng.choice(SEL_KINDS)
+    if kind in ORDERED_KINDS and n < 2:
+        kind = 'single'
     if kind == 'all':
         return kind, {}, [True] * n
     if kind == 'chain':
@@ -86,6 +93,40 @@ def selection(rng, rows, kind=None):
     if kind == 'rowlist':
         ks = sorted(rng.sample(range(n), rng.randint(1, n)))
         return kind, {'rowID': ks}, [i in ks for i in range(n)]
+    # rowID lists whose ORDER differs from table order: the selection is the same set of rows, and each selected atom must get
+    # the isometry applied to its own coordinates whatever the order in which the list names it
+    if kind == 'rowlist_shuffled':
+        ks = rng.sample(range(n), rng.randint(2, n))
+        while ks == sorted(ks):
+            rng.shuffle(ks)
+        return kind, {'rowID': ks}, [i in ks for i in range(n)]
+    if kind == 'rowlist_reversed':
+        ks = sorted(rng.sample(range(n), rng.randint(2, n)), reverse=True)
+        return kind, {'rowID': ks}, [i in ks for i in range(n)]
+    if kind == 'rowlist_concat':                   # concatenation of two get('rowID', ...) results, later rows first
+        if len(chains) >= 2:
+            c1, c2 = rng.sample(chains, 2)
+            first = [i for i, r in enumerate(rows) if r[4] == c1]; second = [i for i, r in enumerate(rows) if r[4] == c2]
+            if first and second and first[0] < second[0]:
+                first, second = second, first
+            ks = first + second
+        else:
+            h = n // 2
+            ks = list(range(h, n)) + list(range(h))
+        return kind, {'rowID': ks}, [i in ks for i in range(n)]
+    if kind == 'rowlist_dup':                      # a row named twice is still one selected row
+        ks = rng.sample(range(n), rng.randint(2, n))
+        ks = ks + [ks[0]]
+        return kind, {'rowID': ks}, [i in ks for i in range(n)]
+    if kind == 'rowlist_and_key':                  # a non-ascending rowID list combined with another key
+        c = rng.choice(chains)
+        members = [i for i, r in enumerate(rows) if r[4] == c]
+        others = [i for i, r in enumerate(rows) if r[4] != c]
+        ks = rng.sample(members, rng.randint(1, len(members))) + rng.sample(others, rng.randint(0, len(others)))
+        ks.sort(reverse=True)
+        if rng.random() < 0.5:
+            rng.shuffle(ks)
+        return kind, {'rowID': ks, 'chainID': c}, [(i in ks and rows[i][4] == c) for i in range(n)]
     if kind == 'empty':
         return kind, {'chainID': 'Z'}, [False] * n
     raise ValueError(kind)
@@ -169,7 +210,7 @@ def cases(ctx):
         return {'op': 'transform_seq', 'lines': lines, 'steps': steps, 'family': family}
 
     for kind in ('translation', 'rot_axis', 'rot_euler', 'rot_mat'):
-        for sk in ('all', 'chain', 'chains_all', 'single', 'name', 'resrange', 'no_chain', 'rowlist'):
+        for sk in SEL_KINDS:
             for angles in ('generic', 'halfpi'):
                 for _ in range(ctx.scale(2, 30)):
                     out.append(seq_case(1, angles, f'single-{angles}', [kind], [sk]))
@@ -202,7 +243,7 @@ def search_cases(ctx):
         rows = pdb2sql(lines).get('*')
         kind = rng.choice(['rot_axis', 'rot_euler', 'rot_euler', 'translation', 'rot_mat'])
         st = make_step(rng, g, kind, 'two' if kind == 'rot_euler' else 'generic')
-        sk, kw, mask = selection(rng, rows, rng.choice(['chain', 'single', 'rowlist', 'all']))
+        sk, kw, mask = selection(rng, rows, rng.choice(['chain', 'single', 'rowlist', 'all'] + ORDERED_KINDS))
         st.update({'selkind': sk, 'kwargs': kw, 'mask': mask})
         out.append({'op': 'transform_seq', 'lines': lines, 'steps': [st], 'family': 'search'})
     return out
@@ -405,10 +446,15 @@ def extra_checks(ctx):
         lines = make_lines(rng, rng.choice([4, 8, 13]))
         db = pdb2sql(lines)
         rows0 = db.get('*')
-        sk, kw, mask = selection(rng, rows0, rng.choice(['all', 'chain', 'rowlist', 'no_chain', 'single']))
+        sk, kw, mask = selection(rng, rows0, rng.choice(['all', 'chain', 'rowlist', 'no_chain', 'single'] + ORDERED_KINDS))
         st = make_step(rng, g, None, rng.choice(['generic', 'halfpi']))
         st.update({'kwargs': kw})
-        apply_real(db, st)
+        try:
+            apply_real(db, st)
+        except Exception as e:                  # a transform on a non-empty selection must not raise
+            if bad_inv is None:
+                bad_inv = {'lines': lines, 'step': {k: v for k, v in st.items() if k != 'kwargs'}, 'kwargs': kw, 'raised': exc_tag(e)}
+            continue
         rows1 = db.get('*')
         X0 = np.array([r[7:10] for r, m in zip(rows0, mask) if m], float)
         X1 = np.array([r[7:10] for r, m in zip(rows1, mask) if m], float)
@@ -431,9 +477,14 @@ def extra_checks(ctx):
                    {'kind': 'rot_euler', 'alpha': -st['alpha'], 'beta': 0.0, 'gamma': 0.0}]
         else:
             inv = [{'kind': 'rot_mat', 'mat': [float(x) for x in np.array(st['mat']).reshape(3, 3).T.ravel()]}]
-        for s2 in inv:
-            s2['kwargs'] = kw
-            apply_real(db, s2)
+        try:
+            for s2 in inv:
+                s2['kwargs'] = kw
+                apply_real(db, s2)
+        except Exception as e:
+            if bad_inv is None:
+                bad_inv = {'lines': lines, 'step': {k: v for k, v in st.items() if k != 'kwargs'}, 'kwargs': kw, 'inverse_raised': exc_tag(e)}
+            continue
         rows2 = db.get('*')
         n_inv += 1
         for r0, r2 in zip(rows0, rows2):
